@@ -315,6 +315,7 @@ def run_case(case):
 
     run_guarded(res, lambda: run.run(body))
     stats["decisions"] = run.decisions
+    dig.add_events(run.events)
     nontrivial = P["words"] >= 2 and any(F.values())
     return finish(res, dig, stats, nontrivial)
 
